@@ -683,49 +683,52 @@ Section Refinement.
   Variable resolve : url -> str -> option url.
   Variable cb_fail : nat -> bool.
   Variable c : cfg.
+  (* an invariant of the request paths of the run (e.g. "the listing endpoint or its sibling") *)
+  Variable InvP : str -> Prop.
 
   (* a raw request and a model request that a registry cannot tell apart *)
   Definition same_request (rs : sreq) (rq : url) : Prop :=
     sr_path rs = u_path rq /\ repr (sr_query rs) (u_query rq).
 
   (* the server answers related requests alike *)
-  Hypothesis Hserve : forall i rs rq, same_request rs rq -> serve_s i rs = serve i rq.
+  Hypothesis Hserve : forall i rs rq, InvP (sr_path rs) -> same_request rs rq -> serve_s i rs = serve i rq.
   (* net/url (as modelled) and the abstract resolver of the model agree on the links served *)
   Hypothesis Hlink : forall i rs rq t,
-    same_request rs rq -> parse_link (rs_link (serve i rq)) = LTarget t ->
+    InvP (sr_path rs) -> same_request rs rq -> parse_link (rs_link (serve i rq)) = LTarget t ->
     match resolve_ref (mkS sch host (sr_path rs) (sr_query rs)) t, resolve rq t with
-    | ROk u, Some u' => s_path u <> [] /\ s_path u = u_path u' /\ repr (s_query u) (u_query u')
+    | ROk u, Some u' => s_path u <> [] /\ s_path u = u_path u' /\ repr (s_query u) (u_query u') /\ InvP (s_path u)
     | RErr, None => True
     | _, _ => False
     end.
 
-  Theorem loop_s_refines :
+  Theorem loop_s_refines_inv :
     forall fuel i k p raw q last,
-      repr raw q -> Forall byte_ok last ->
+      InvP p -> repr raw q -> Forall byte_ok last ->
       exists ts, loop_s sch host serve_s cb_fail c fuel i k p raw last = Some ts /\
                  let t := loop serve resolve cb_fail c fuel i k (mkUrl p q) last in
                  st_pages ts = t_pages t /\ st_out ts = t_out t /\
                  Forall2 same_request (st_reqs ts) (t_reqs t).
   Proof.
-    induction fuel as [|fuel IH]; intros i k p raw q last R Hl.
+    induction fuel as [|fuel IH]; intros i k p raw q last Ip R Hl.
     { eexists. split; [reflexivity|]. simpl. repeat split; constructor. }
     cbn [loop_s loop]. cbv zeta.
     set (rs := mkSR p (request_query c raw last)).
     set (rq := mk_request c (mkUrl p q) last).
     assert (SR : same_request rs rq).
     { split; [reflexivity|]. now apply request_query_refines. }
-    rewrite (Hserve i rs rq SR).
+    assert (Ir : InvP (sr_path rs)) by exact Ip.
+    rewrite (Hserve i rs rq Ir SR).
     destruct (handle c (serve i rq)) as [e|page] eqn:H.
     { eexists. split; [reflexivity|]. simpl. repeat split. repeat constructor; apply SR. }
     destruct (delivered c page && cb_fail k).
     { eexists. split; [reflexivity|]. simpl. repeat split. repeat constructor; apply SR. }
     destruct (parse_link (rs_link (serve i rq))) as [| | |t] eqn:PL;
       try (eexists; split; [reflexivity|]; simpl; repeat split; repeat constructor; apply SR).
-    pose proof (Hlink i rs rq t SR PL) as HL.
+    pose proof (Hlink i rs rq t Ir SR PL) as HL.
     destruct (resolve_ref (mkS sch host (sr_path rs) (sr_query rs)) t) as [u| |] eqn:RR;
       destruct (resolve rq t) as [u'|] eqn:RA; try contradiction.
-    - destruct HL as (Hne & Hp & Hr). destruct u' as [p' q']. cbn [u_path u_query] in *.
-      destruct (IH (S i) (if delivered c page then S k else k) (s_path u) (s_query u) q' [] Hr ltac:(constructor))
+    - destruct HL as (Hne & Hp & Hr & Hi). destruct u' as [p' q']. cbn [u_path u_query] in *.
+      destruct (IH (S i) (if delivered c page then S k else k) (s_path u) (s_query u) q' [] Hi Hr ltac:(constructor))
         as (ts & E & A & B0 & D).
       destruct (s_path u) eqn:SP; [contradiction|]. rewrite <- SP in *.
       rewrite E. eexists. split; [reflexivity|].
@@ -734,6 +737,30 @@ Section Refinement.
     - eexists. split; [reflexivity|]. simpl. repeat split. repeat constructor; apply SR.
   Qed.
 End Refinement.
+
+(* without an invariant *)
+Theorem loop_s_refines (sch host : str) (serve_s : nat -> sreq -> response) (serve : nat -> url -> response)
+        (resolve : url -> str -> option url) (cb_fail : nat -> bool) (c : cfg) :
+  (forall i rs rq, same_request rs rq -> serve_s i rs = serve i rq) ->
+  (forall i rs rq t, same_request rs rq -> parse_link (rs_link (serve i rq)) = LTarget t ->
+     match resolve_ref (mkS sch host (sr_path rs) (sr_query rs)) t, resolve rq t with
+     | ROk u, Some u' => s_path u <> [] /\ s_path u = u_path u' /\ repr (s_query u) (u_query u')
+     | RErr, None => True
+     | _, _ => False
+     end) ->
+  forall fuel i k p raw q last,
+    repr raw q -> Forall byte_ok last ->
+    exists ts, loop_s sch host serve_s cb_fail c fuel i k p raw last = Some ts /\
+               let t := loop serve resolve cb_fail c fuel i k (mkUrl p q) last in
+               st_pages ts = t_pages t /\ st_out ts = t_out t /\
+               Forall2 same_request (st_reqs ts) (t_reqs t).
+Proof.
+  intros Hs Hk fuel i k p raw q last R Hl.
+  apply (loop_s_refines_inv sch host serve_s serve resolve cb_fail c (fun _ => True)); auto.
+  intros i0 rs rq t _ SR PL. specialize (Hk i0 rs rq t SR PL).
+  destruct (resolve_ref (mkS sch host (sr_path rs) (sr_query rs)) t); destruct (resolve rq t); auto.
+  destruct Hk as (A & B0 & C0). auto.
+Qed.
 
 Lemma Forall2_len {A B} (R : A -> B -> Prop) l1 l2 : Forall2 R l1 l2 -> length l1 = length l2.
 Proof. induction 1; simpl; congruence. Qed.
@@ -889,4 +916,49 @@ Proof.
              (mkS (s_scheme base) (s_host base) (c_sl :: join [c_sl] (dirs ++ [seg])) Q)); auto.
   - now apply resolve_dot_relative with (lastB := lastB).
   - discriminate.
+Qed.
+
+(* ---------- a concrete instance: the hypotheses of the refinement theorem are satisfiable ---------- *)
+
+Definition exs_path : str := b "/v2/r/tags/list".
+Definition exs_resp (i : nat) : response :=
+  match i with
+  | O => mkResp 200 false [] true 10 10 [(b "a", [])] [b "<?last=a>; rel=""next"""] [] []
+  | _ => mkResp 200 false [] true 10 10 [(b "b", [])] [] [] []
+  end.
+Definition exs_serve_s (i : nat) (_ : sreq) : response := exs_resp i.
+Definition exs_serve (i : nat) (_ : url) : response := exs_resp i.
+Definition exs_resolve (rq : url) (t : str) : option url := Some (mkUrl (u_path rq) [(k_last, VS (b "a"))]).
+Definition exs_inv (p : str) : Prop := p = exs_path.
+
+Lemma exs_clean : clean_path exs_path [b "v2"; b "r"; b "tags"; b "list"].
+Proof.
+  split; [discriminate|]. split; [|reflexivity].
+  repeat constructor; try (eexists; eexists; split; reflexivity); try reflexivity; discriminate.
+Qed.
+
+Lemma example_refinement_hypotheses :
+  (forall i rs rq, exs_inv (sr_path rs) -> same_request rs rq -> exs_serve_s i rs = exs_serve i rq) /\
+  (forall i rs rq t,
+     exs_inv (sr_path rs) -> same_request rs rq -> parse_link (rs_link (exs_serve i rq)) = LTarget t ->
+     match resolve_ref (mkS (b "http") (b "reg.test") (sr_path rs) (sr_query rs)) t, exs_resolve rq t with
+     | ROk u, Some u' => s_path u <> [] /\ s_path u = u_path u' /\ repr (s_query u) (u_query u') /\ exs_inv (s_path u)
+     | RErr, None => True
+     | _, _ => False
+     end).
+Proof.
+  split; [reflexivity|].
+  intros i rs rq t Ip [Sp _] PL. destruct i as [|i]; [|discriminate].
+  assert (Et : t = c_qm :: b "last=a") by (vm_compute in PL; now injection PL as <-).
+  subst t. unfold exs_inv in Ip.
+  rewrite (resolve_query_only (mkS (b "http") (b "reg.test") (sr_path rs) (sr_query rs))
+             [b "v2"; b "r"; b "tags"; b "list"] (b "last=a")).
+  - unfold exs_resolve. cbn [s_path s_scheme s_host s_query u_path u_query].
+    rewrite <- Sp, Ip. repeat split; try discriminate.
+    intro k. change (parse_query_lenient (b "last=a")) with [(b "last", b "a")].
+    cbn [lookup qget option_map show]. change k_last with (b "last").
+    now destruct (str_eqb (b "last") k).
+  - cbn [s_path]. rewrite Ip. exact exs_clean.
+  - reflexivity.
+  - reflexivity.
 Qed.
